@@ -314,6 +314,21 @@ Lemma counter_written_by_put_only :
   Gen.C05.id_generator_store_writes = 1.
 Proof. repeat split; reflexivity. Qed.
 
+(** third round: every place of the consensus module that hands out bytes to sign computes them from
+    the message it was given (GetBytesToSign on the stored message, nothing memoised), and the keeper
+    carries no field that could hold such a memo: exactly the fields of the pinned tree, none a map *)
+Lemma served_signbytes_are_recomputed :
+  Forall (fun p => snd p = "msg.GetBytesToSign"%string) Gen.C05.bytes_to_sign_sites /\
+  map fst Gen.C05.bytes_to_sign_sites = ["ToMessageWithSignatures"; "queuedMessageToMessageToSign"]%string /\
+  map fst Gen.C05.consensus_keeper_fields =
+    ["cdc"; "storeKey"; "paramstore"; "ider"; "valset"; "registry"; "evmKeeper"; "consensusChecker"; "feeProvider";
+     "onMessageAttestedListeners"]%string /\
+  map snd Gen.C05.consensus_keeper_fields =
+    ["codec.Codec"; "store.KVStoreService"; "paramtypes.Subspace"; "keeperutil.IDGenerator"; "types.ValsetKeeper"; "*registry";
+     "types.EvmKeeper"; "*libcons.ConsensusChecker"; "FeeProvider"; "[]metrixtypes.OnConsensusMessageAttestedListener"]%string /\
+  Gen.C05.consensus_package_level_maps = 0.
+Proof. split; [repeat constructor | repeat split; reflexivity]. Qed.
+
 (** ---- non-vacuity ---- *)
 Example ids_sample :
   let ops := [OPut 0 0 10; OPut 1 0 11; OPut 0 1 12; ORemove 1 2; OPut 1 0 13; OPut 1 1 14] in
